@@ -1,7 +1,8 @@
 (** C19 — property theorems (statements only; every proof is [exact] of a lemma of Proofs.v).
     Exact De Bruijn weights and heaviest path; strand-invariant canonical k-mers; exact 4-mer tables. *)
 From Coq Require Import NArith List Bool Permutation.
-From OBI.C19 Require Import Model Proofs.
+From OBI.C19 Require Import Model Proofs Algo KmerString Corr HavProofs DfsProofs AlgoProofs BuiltProofs SingleProofs DecodeProofs ConsProofs TablesProofs IupacCount IupacWin IupacProofs IupacStrand.
+From OBI.C19.Gen Require Import Tables.
 Import ListNotations.
 Open Scope N_scope.
 
@@ -58,14 +59,25 @@ Theorem C19_weights : forall k seqs, 1 <= k -> k <= 31 ->
   exists g, dbg_build k seqs = Some g /\ forall x, weight g x = total_weight (N.to_nat k) seqs x.
 Proof. exact weights_exact. Qed.
 
-(* ANY IUPAC sequence (known finding iupac-prefix-multiplicity — this is what the code computes, not what a
-   symmetric reading of the property demands): the weight of x is the sum over the sequences of count x the number
+(* ANY IUPAC sequence, code BEFORE the repair of the finding iupac-prefix-multiplicity ([dbg_build_pre]) — this is
+   what that code computed, not what a symmetric reading of the property demands: the weight of x is the sum over the sequences of count x the number
    of nodes of the expansion tree ([pexp [] s]: every IUPAC expansion of every prefix of s, of length >= k) whose
    last k bases spell x; i.e. a window is counted once per expansion of ALL the bases before its end. *)
 Theorem C19_weights_iupac_characterised : forall k seqs, 1 <= k -> k <= 31 ->
   Forall (fun sq => nonempty_codes (fst sq)) seqs ->
-  exists g, dbg_build k seqs = Some g /\ forall x, weight g x = total_prefix_weight k seqs x.
+  exists g, dbg_build_pre k seqs = Some g /\ forall x, weight g x = total_prefix_weight k seqs x.
 Proof. exact weights_iupac_exact. Qed.
+(* ANY IUPAC sequence, code as repaired (finding iupac-prefix-multiplicity): the weight of x is the sum over the
+   sequences of count x the number of windows of the sequence compatible with x (x is the k-mer of one IUPAC
+   expansion of the window) — the symmetric per-window reading; sequences shorter than k contribute 0. *)
+Theorem C19_weights_iupac : forall k seqs, 1 <= k -> k <= 31 ->
+  Forall (fun sq => nonempty_codes (fst sq)) seqs ->
+  exists g, dbg_build k seqs = Some g /\ forall x, weight g x = total_compat_weight (N.to_nat k) seqs x.
+Proof. exact weights_iupac_window. Qed.
+(* that weight is strand-symmetric: the reverse-complemented sequences give the reverse-complemented k-mer the same weight *)
+Theorem C19_weights_iupac_strand_symmetric : forall K seqs e, (1 <= K)%nat -> digits e -> length e = K ->
+  total_compat_weight K (rcseqs seqs) (kval (rcw e)) = total_compat_weight K seqs (kval e).
+Proof. exact total_compat_weight_strand. Qed.
 Theorem C19_expansion_node_kmer : forall k q, digits q -> kmer_of k q = kval (rev (firstn (N.to_nat k) q)).
 Proof. exact kmer_of_long. Qed.
 
@@ -74,11 +86,12 @@ Example C19_weights_nonvacuous :
   /\ total_weight 4 [([97;99;103;116], 2); ([99;103;116;97], 3); ([97;99;103;116;97], 1)] 27 = 3.
 Proof. split; [exists [0;1;2;3]; reflexivity|vm_compute; auto]. Qed.
 
-(** ---------------- heaviest walk and cycles — theorems about the SPECIFICATION [best_walk_weight] /
-    [has_cycle] (layered dynamic programme over walks of at most |nodes| nodes). The Go algorithms
-    HasCycle (DFS) and HaviestPath (label-correcting search with a heap) are NOT modelled: check C19
-    ties them to this specification on every run by comparing HasCycle with has_cycle, and the
-    validity + total weight of the returned path with best_walk_weight (partial). *)
+(** ---------------- heaviest walk and cycles — first the SPECIFICATION [best_walk_weight] / [has_cycle]
+    (layered dynamic programme over walks of at most |nodes| nodes), then (round 2) the Go ALGORITHMS themselves:
+    HasCycle (recursive DFS with its visited / stack maps) and HaviestPath (label-correcting search driven by a
+    min-heap of node ids, re-opening a node whose distance improves, then reconstruction through prevNodes),
+    transcribed in Algo.v, proved equal to the specification and compared with the Go code on every run on the
+    verdict and on the ACTUAL path. *)
 (* the value returned is the maximum total weight over ALL walks of the graph that start at a source node *)
 Theorem C19_best_walk_optimal : forall k g bw, best_walk_weight k g = Some bw ->
   has_cycle k g = false /\
@@ -110,6 +123,161 @@ Example C19_best_walk_nonvacuous :
             is_walk 3 g [1; 5; 22; 27].
 Proof. eexists. split; [vm_compute; reflexivity|]. vm_compute. intuition. Qed.
 
+
+(** ---------------- the Go algorithms (Algo.v) *)
+(* HasCycle: the DFS decides exactly has_cycle (= existence of a closed walk, C19_acyclic_iff_path), whatever the
+   iteration order of the Go map; recursion depth <= |nodes| (fuel proved sufficient: the result is never None) *)
+Theorem C19_hascycle_correct : forall k g order, (forall x, In x order <-> In x (nodes g)) ->
+  go_has_cycle k g order = Some (has_cycle k g).
+Proof. exact go_has_cycle_correct. Qed.
+
+(* HaviestPath on a cyclic graph returns nil *)
+Theorem C19_heaviest_path_nil_on_cycle : forall fuel k g order hs, (forall x, In x order <-> In x (nodes g)) ->
+  has_cycle k g = true -> heaviest_path fuel k g order hs = HNil.
+Proof. exact heaviest_path_cyclic. Qed.
+
+(* HaviestPath on an acyclic graph with positive weights, started from any non-empty set [hs] of nodes without
+   incoming edge (any iteration orders of the maps): the main loop TERMINATES within hav_fuel iterations, the
+   reconstruction does not panic, and the returned path is a valid walk from a node of hs whose total weight is
+   maximal among ALL walks starting in hs. The re-opening [visited[next] = false] is what makes the invariant
+   "every settled node has all its out-edges relaxed" hold (C19_heaviest_path_noreopen_refuted). *)
+Theorem C19_heaviest_path_optimal : forall k g order hs,
+  (forall x, In x order <-> In x (nodes g)) ->
+  has_cycle k g = false ->
+  (forall x, mem g x = true -> 0 < weight g x) ->
+  (forall h, In h hs -> mem g h = true) ->
+  (forall h y, In h hs -> mem g y = true -> ~ In h (nexts k g y)) ->
+  hs <> [] -> (length hs <= length g)%nat ->
+  exists h rest, heaviest_path (hav_fuel g) k g order hs = HPath (h :: rest) /\ In h hs /\ is_walk k g (h :: rest) /\
+    forall h' p', In h' hs -> is_walk k g (h' :: p') -> wsum g (h' :: p') <= wsum g (h :: rest).
+Proof. exact heaviest_path_acyclic. Qed.
+
+(* the call g.HaviestPath() on ANY graph built by Push from sequences with counts >= 1 (k = 1..31, non-empty graph):
+   nil exactly when the specification returns no walk (cycle); otherwise the path is a walk from a source (Heads)
+   whose weight IS the specified optimum best_walk_weight *)
+Theorem C19_heaviest_path_is_best_walk : forall k seqs g, 1 <= k -> k <= 31 -> dbg_build k seqs = Some g ->
+  Forall (fun sq => 0 < snd sq) seqs -> g <> [] ->
+  match best_walk_weight k g with
+  | None => has_cycle k g = true /\ go_heaviest_path k g = HNil
+  | Some bw => exists h rest, go_heaviest_path k g = HPath (h :: rest) /\ In h (heads k g) /\
+                 is_walk k g (h :: rest) /\ wsum g (h :: rest) = bw /\
+                 forall h' p', In h' (heads k g) -> is_walk k g (h' :: p') -> wsum g (h' :: p') <= wsum g (h :: rest)
+  end.
+Proof. exact built_heaviest_path_optimal. Qed.
+
+(* facts about graphs built by Push used above *)
+Theorem C19_built_weights_positive : forall k seqs g, dbg_build k seqs = Some g ->
+  Forall (fun sq => 0 < snd sq) seqs -> forall x, mem g x = true -> 0 < weight g x.
+Proof. exact built_weights_positive. Qed.
+Theorem C19_acyclic_has_source : forall k seqs g, 1 <= k -> k <= 31 -> dbg_build k seqs = Some g ->
+  g <> [] -> has_cycle k g = false -> heads k g <> [].
+Proof. exact acyclic_has_head. Qed.
+
+(* binary fuel = unary fuel *)
+Theorem C19_run_pos_is_run : forall (A : Type) (step : A -> option A) p a, run_pos step p a = run step (Pos.to_nat p) a.
+Proof. intros A step. exact (run_pos_spec step). Qed.
+
+(* seeded change C19-A: without the re-opening the returned walk is valid but not maximal (k = 3, gtcaga x5 + ggcaga x1) *)
+Theorem C19_heaviest_path_noreopen_refuted : exists g, dbg_build 3 wit_bubble = Some g /\ has_cycle 3 g = false /\
+  heaviest_path_with relax_noreopen (hav_fuel g) 3 g (nodes g) (heads 3 g) = HPath [45; 52; 18] /\
+  go_heaviest_path 3 g = HPath [45; 52; 18; 8] /\
+  best_walk_weight 3 g = Some (wsum g [45; 52; 18; 8]) /\ wsum g [45; 52; 18] < wsum g [45; 52; 18; 8].
+Proof. exact noreopen_suboptimal. Qed.
+
+Example C19_heaviest_path_nonvacuous :
+  exists g, dbg_build 3 [([97;97;99;103;116], 2); ([97;97;99;99;103;116], 3)] = Some g /\
+            go_has_cycle 3 g (nodes g) = Some false /\ go_heaviest_path 3 g = HPath [1; 5; 22; 27] /\
+            longest_consensus 3 g = Some [97;97;99;99;103;116].
+Proof. eexists. split; [vm_compute; reflexivity|]. vm_compute. intuition. Qed.
+
+
+(** ---------------- DecodePath, LongestConsensus, KmerAsString and the single-sequence clause *)
+(* DecodePath inverts k-mer extraction on walks: the string returned for ANY walk of a built graph has length
+   k + |walk| - 1 and its successive k-mers are exactly the nodes of the walk, in order; it is the only such string *)
+Theorem C19_decode_path_spells_walk : forall k seqs g p, 1 <= k -> k <= 31 -> dbg_build k seqs = Some g -> is_walk k g p ->
+  exists cs, digits cs /\ decode_path k p = map decode cs /\
+             length cs = (N.to_nat k + length p - 1)%nat /\ kmers (N.to_nat k) cs = p.
+Proof. exact decode_path_spells_walk_built. Qed.
+Theorem C19_decode_path_unique : forall k p cs, 1 <= k -> p <> [] -> digits cs ->
+  kmers (N.to_nat k) cs = p -> decode_path k p = map decode cs.
+Proof. exact decode_path_spelling_unique. Qed.
+
+(* LongestConsensus(id, 0) on a non-empty graph built by Push (counts >= 1): an error exactly when the graph has a cycle;
+   otherwise the bases of a string whose k-mers are the path of HaviestPath, a walk from a source of maximal total weight *)
+Theorem C19_longest_consensus : forall k seqs g, 1 <= k -> k <= 31 -> dbg_build k seqs = Some g ->
+  Forall (fun sq => 0 < snd sq) seqs -> g <> [] ->
+  match best_walk_weight k g with
+  | None => has_cycle k g = true /\ longest_consensus k g = None
+  | Some bw => exists cs p, longest_consensus k g = Some (map decode cs) /\ digits cs /\
+                 length cs = (N.to_nat k + length p - 1)%nat /\ kmers (N.to_nat k) cs = p /\
+                 go_heaviest_path k g = HPath p /\ is_walk k g p /\ wsum g p = bw /\
+                 (exists h rest, p = h :: rest /\ In h (heads k g)) /\
+                 forall h' p', In h' (heads k g) -> is_walk k g (h' :: p') -> wsum g (h' :: p') <= wsum g p
+  end.
+Proof. exact longest_consensus_spec. Qed.
+
+(* "a single sequence without repeated k-mer is returned unchanged" — the EXACT condition is: no repeated (k-1)-mer.
+   Under it (k = 2..31, sequence over a/c/g/t/u of length >= k, count >= 1) the graph is acyclic, HaviestPath returns the
+   k-mers of the sequence in order, and DecodePath / LongestConsensus return the sequence itself (u read as t) *)
+Theorem C19_single_sequence : forall k s c cs g, 2 <= k -> k <= 31 -> 0 < c ->
+  all_some (map ocode s) = Some cs -> (N.to_nat k <= length cs)%nat ->
+  NoDup (windows (N.to_nat k - 1) cs) ->
+  dbg_build k [(s, c)] = Some g ->
+  has_cycle k g = false /\
+  go_heaviest_path k g = HPath (kmers (N.to_nat k) cs) /\
+  decode_path k (kmers (N.to_nat k) cs) = map decode cs /\
+  longest_consensus k g = Some (map decode cs).
+Proof. exact single_sequence_unchanged. Qed.
+(* the condition is exact: the graph of a single sequence is acyclic IFF no (k-1)-mer is repeated; with a repeat nothing is returned *)
+Theorem C19_single_sequence_acyclic_iff : forall k s c cs g, 2 <= k -> k <= 31 -> 0 < c ->
+  all_some (map ocode s) = Some cs -> (N.to_nat k <= length cs)%nat ->
+  dbg_build k [(s, c)] = Some g ->
+  (has_cycle k g = false <-> NoDup (windows (N.to_nat k - 1) cs)).
+Proof. exact single_sequence_acyclic_iff. Qed.
+(* the clause as worded in the property text ("without repeated k-mer") is false: acgac, k = 3 *)
+Theorem C19_single_sequence_kmers_distinct_refuted : exists s cs g, all_some (map ocode s) = Some cs /\ NoDup (windows 3 cs) /\
+  dbg_build 3 [(s, 1)] = Some g /\ has_cycle 3 g = true /\ go_heaviest_path 3 g = HNil.
+Proof. exact single_sequence_kmers_distinct_not_enough. Qed.
+
+(* KmerAsString: the string of a dense key is the k-mer itself; of a sparse key (k odd >= 3) the k-mer with its centre
+   base replaced by '#'; the indexed writes never leave the buffer *)
+Theorem C19_kmer_string_dense : forall km w, km_sparse km = false -> digits w -> N.of_nat (length w) = km_k km ->
+  kmer_string km (kval w) = map decode w.
+Proof. exact kmer_string_dense. Qed.
+Theorem C19_kmer_string_sparse : forall wd k0 km w, new_kmap wd k0 true = Some km -> 3 <= km_k km ->
+  digits w -> N.of_nat (length w) = km_k km ->
+  kmer_string km (make_sparse km (kval w)) =
+  map decode (firstn (Nat.div (length w) 2) w) ++ [35] ++ map decode (skipn (Nat.add (Nat.div (length w) 2) 1) w).
+Proof. exact kmer_string_make_sparse. Qed.
+Theorem C19_kmer_string_never_panics : forall km sat x, kmer_as_string_buf km sat x = Some (kmer_as_string km sat x).
+Proof. exact kmer_as_string_buf_eq. Qed.
+
+(** ---------------- regenerated tables (Gen/Tables.v is rewritten from the CURRENT build before every Coq build;
+    these theorems are re-proved by the kernel over the regenerated lists on every run) *)
+(* the hand-transcribed tables of Model.v / Algo.v ARE the tables of the code *)
+Theorem C19_tables_model_agree : forall b, b < 256 ->
+  Model.iupac b = tab_iupac b /\ Model.revcompnuc b = tab_revcomp b /\
+  Model.base4 b = nth (N.to_nat (N.land b 31)) single_tab 0 /\ Algo.decode b = tab_decode b.
+Proof. intros b Hb. repeat split; [apply tab_model_iupac|apply tab_model_revcompnuc|apply tab_model_base4|apply tab_model_decode]; exact Hb. Qed.
+(* the expansion of each IUPAC letter is its standard base set (16 letters, codes strictly increasing, < 4) *)
+Theorem C19_tables_iupac_standard : keys iupac_tab = letters /\ forall b, b < 256 -> tab_iupac b = iupac_set b.
+Proof. split; [exact tab_iupac_keys|exact tab_iupac_is_standard]. Qed.
+Theorem C19_tables_iupac_codes_sorted : forall b codes, In (b, codes) iupac_tab ->
+  codes <> [] /\ incr codes = true /\ forall c, In c codes -> c < 4.
+Proof. exact tab_iupac_codes_sorted_lt4. Qed.
+(* complement consistency: the complement letter expands to the complemented base set; involution except u -> a -> t *)
+Theorem C19_tables_complement_consistent : forall b, In b (keys iupac_tab) ->
+  In b (keys revcomp_tab) /\ In (tab_revcomp b) (keys iupac_tab) /\ tab_iupac (tab_revcomp b) = comp_set (tab_iupac b).
+Proof. exact tab_revcomp_consistent. Qed.
+Theorem C19_tables_complement_involution : forall b, In b (keys iupac_tab) -> b <> 117 -> tab_revcomp (tab_revcomp b) = b.
+Proof. exact tab_revcomp_involution. Qed.
+(* decode inverts the unambiguous codes; the 4-mer base codes *)
+Theorem C19_tables_decode_inverts : forall c, c < 4 -> tab_iupac (tab_decode c) = [c].
+Proof. exact tab_decode_encodes. Qed.
+Theorem C19_tables_single_base_code : single_tab = map single_spec idx32 /\
+  tab_single 97 = 0 /\ tab_single 99 = 1 /\ tab_single 103 = 2 /\ tab_single 116 = 3 /\ tab_single 117 = 3.
+Proof. split; [exact tab_single_table|exact tab_single_acgtu]. Qed.
+
 (** ---------------- 4-mer tables (Encode4mer + Count4Mer, as repaired for length 3)
     code4 w = base-4 value of the window, every symbol other than a/c/g/t/u read as a (stated);
     the table cell is the number of windows with that code, modulo 2^16 (uint16 cells) *)
@@ -131,17 +299,22 @@ Proof. exact kmask_orig_panics_full_word. Qed.
 Theorem C19_weights_length_k_refuted :
   exists k s, N.of_nat (length s) = k /\ dbg_build_orig k [(s, 1)] = Some [] /\ dbg_build k [(s, 1)] = Some [(27, 1)].
 Proof. exact push_orig_ignores_length_k. Qed.
-(* known finding iupac-prefix-multiplicity (model faithful to the code): with ambiguity codes the weight is neither
+(* finding iupac-prefix-multiplicity, now repaired: in the code before the repair ([dbg_build_pre]) with ambiguity codes the weight is neither
    count x occurrences in the full expansions nor count x compatible windows, and depends on the reading direction *)
 Theorem C19_weights_iupac_refuted :
-  exists k s x g, dbg_build k [(s, 1)] = Some g /\
+  exists k s x g, dbg_build_pre k [(s, 1)] = Some g /\
     weight g x <> full_occ (N.to_nat k) s x /\ weight g x <> compat_occ (N.to_nat k) s x /\
     weight g x = 4 /\ full_occ (N.to_nat k) s x = 16 /\ compat_occ (N.to_nat k) s x = 1.
 Proof. exact weights_iupac_neither_reading. Qed.
 Theorem C19_weights_iupac_direction_refuted :
-  exists g1 g2, dbg_build 2 [([110; 97; 99], 1)] = Some g1 /\ dbg_build 2 [([97; 99; 110], 1)] = Some g2 /\
+  exists g1 g2, dbg_build_pre 2 [([110; 97; 99], 1)] = Some g1 /\ dbg_build_pre 2 [([97; 99; 110], 1)] = Some g2 /\
                 weight g1 1 = 4 /\ weight g2 1 = 1.
 Proof. exact weights_iupac_direction. Qed.
+(* after the repair both reading directions give the window `ac` the weight 1 *)
+Example C19_weights_iupac_nonvacuous :
+  exists g1 g2, dbg_build 2 [([110; 97; 99], 1)] = Some g1 /\ dbg_build 2 [([97; 99; 110], 1)] = Some g2 /\
+                weight g1 1 = 1 /\ weight g2 1 = 1 /\ compat_occ 2 [110; 97; 99] 1 = 1 /\ compat_occ 2 [97; 99; 110] 1 = 1.
+Proof. eexists. eexists. split; [vm_compute; reflexivity|]. split; [vm_compute; reflexivity|]. vm_compute. auto. Qed.
 Theorem C19_count4_length_3_refuted : count4_table false [97;99;103] = None /\ count4_table true [97;99;103] = Some [].
 Proof. exact encode4_orig_panics_length_3. Qed.
 
@@ -161,6 +334,8 @@ Print Assumptions C19_sparse_ignores_centre.
 Print Assumptions C19_weights_iupac_refuted.
 Print Assumptions C19_weights_iupac_direction_refuted.
 Print Assumptions C19_weights_iupac_characterised.
+Print Assumptions C19_weights_iupac.
+Print Assumptions C19_weights_iupac_strand_symmetric.
 Print Assumptions C19_expansion_node_kmer.
 Print Assumptions C19_edges_overlap.
 Print Assumptions C19_index_built_iff_fits.
@@ -169,3 +344,27 @@ Print Assumptions C19_canonical_refuted.
 Print Assumptions C19_mask_full_word_refuted.
 Print Assumptions C19_weights_length_k_refuted.
 Print Assumptions C19_count4_length_3_refuted.
+Print Assumptions C19_hascycle_correct.
+Print Assumptions C19_heaviest_path_nil_on_cycle.
+Print Assumptions C19_heaviest_path_optimal.
+Print Assumptions C19_heaviest_path_is_best_walk.
+Print Assumptions C19_built_weights_positive.
+Print Assumptions C19_acyclic_has_source.
+Print Assumptions C19_run_pos_is_run.
+Print Assumptions C19_heaviest_path_noreopen_refuted.
+Print Assumptions C19_tables_model_agree.
+Print Assumptions C19_tables_iupac_standard.
+Print Assumptions C19_tables_iupac_codes_sorted.
+Print Assumptions C19_tables_complement_consistent.
+Print Assumptions C19_tables_complement_involution.
+Print Assumptions C19_tables_decode_inverts.
+Print Assumptions C19_tables_single_base_code.
+Print Assumptions C19_decode_path_spells_walk.
+Print Assumptions C19_decode_path_unique.
+Print Assumptions C19_longest_consensus.
+Print Assumptions C19_single_sequence.
+Print Assumptions C19_single_sequence_acyclic_iff.
+Print Assumptions C19_single_sequence_kmers_distinct_refuted.
+Print Assumptions C19_kmer_string_dense.
+Print Assumptions C19_kmer_string_sparse.
+Print Assumptions C19_kmer_string_never_panics.
